@@ -44,6 +44,8 @@ func newVectorizedTable(a vectorAccumulator) *vectorTable {
 }
 
 func (t *vectorTable) aggregate(_ float64, vector model.StepVector) {
+	// The output carries the time of the step, also when the step has no samples.
+	t.timestamp = vector.T
 	if len(vector.SampleIDs) == 0 {
 		t.hasValue = false
 		return
